@@ -6,6 +6,7 @@
 import SgeProofs.Properties.C01Combined
 import SgeProofs.Properties.C13Core
 import SgeProofs.Lemmas.CombinedHooksTotalInv
+import SgeProofs.Lemmas.CombinedBankExactInv
 namespace Sge.Combined
 open Sge Sge.Core Sge.Genesis
 
@@ -122,5 +123,72 @@ theorem c11_endBlock_halts_only_with_core (p : Params) (bal : List (Nat × Int))
     unfold endBlock at hh
     rw [e] at hh
     cases hh
+
+-- ---------------------------------------------------------------------------------------------
+-- C11.2 over combined histories: bank = available when nobody sent tokens directly
+
+theorem cmb2_init_bxinv (p : Params) (bal : List (Nat × Int)) (h t : Nat) (we de : Bool)
+    (h0 : getBal bal ACC_POOL = 0 ∧ getBal bal ACC_BETFEE = 0 ∧ getBal bal ACC_HOUSEFEE = 0)
+    (hb : ∀ x, SUB_BASE ≤ x → getBal bal x = 0) : cmb2_BXInv (init p bal h t we de) := by
+  refine ⟨cmb2_init_htinv p bal h t we de h0 (fun x hx => by rw [hb x hx]; exact Int.le_refl _), betIdx_init p bal h t,
+    ⟨fun b hb => (by cases hb), fun m hm => (by cases hm)⟩, ?_, ?_⟩
+  · intro u b i q hbk
+    have : getBook (init p bal h t we de).core u = none := rfl
+    rw [this] at hbk
+    cases hbk
+  · intro x hx
+    show getBal bal x - 0 = 0
+    rw [hb x hx]
+    rfl
+
+/-- C11 (combined), BANK = AVAILABLE. The naive equation of the property is TRUE of the combined model (the fee that is
+    routed to the market creator is no exception: it left the bank balance when the deposit was made and stays in `Spent`,
+    so both sides miss it). From a chain without subaccounts in which the custody accounts and all addresses of the
+    subaccount range hold nothing, after ANY history (core operations, subaccount creation / top-up / unlocked-balance
+    withdrawal, subaccount wagers, subaccount house deposits and withdrawals on real markets, settling end-blocks with
+    their hooks) that is `wfU` (signers, creators, owners are key-holding accounts) and `clean` — the decidable
+    predicate `Op.clean` on every operation: no bank send goes to an address of the subaccount range, and markets are
+    created / direct house withdrawals are made by / for key-holding accounts (a market creator is paid the fees of its
+    market; a withdrawal for a subaccount address outside x/subaccount would need an authz grant signed by that
+    address) — in every reachable state:
+    the bank balance of every subaccount equals Deposited − Withdrawn − Spent − Lost, and an address of the subaccount
+    range without subaccount holds nothing. -/
+theorem c11_bank_eq_available_combined (p : Params) (bal : List (Nat × Int)) (h t : Nat) (we de : Bool) (ops : List Op)
+    (h0 : getBal bal ACC_POOL = 0 ∧ getBal bal ACC_BETFEE = 0 ∧ getBal bal ACC_HOUSEFEE = 0)
+    (hb : ∀ x, SUB_BASE ≤ x → getBal bal x = 0) (hwf : ∀ op ∈ ops, op.wfU) (hcl : ops.all Op.clean = true) :
+    let s := run (init p bal h t we de) ops
+    (∀ a r, aget s.subs a = some r →
+      s.bal a = r.sum.available ∧ r.sum.available = r.sum.deposited - r.sum.withdrawn - r.sum.spent - r.sum.lost) ∧
+    (∀ x, SUB_BASE ≤ x → aget s.subs x = none → s.bal x = 0) := by
+  intro s
+  have hI : cmb2_BXInv s := cmb2_run_bxinv ops _ (cmb2_init_bxinv p bal h t we de h0 hb) hwf hcl
+  constructor
+  · intro a r har
+    have hz := hI.zero a (hI.ht.linv.inRange.of har)
+    unfold surplus led at hz
+    rw [har] at hz
+    simp only at hz
+    exact ⟨by omega, rfl⟩
+  · intro x hx hn
+    have hz := hI.zero x hx
+    unfold surplus led at hz
+    rw [hn] at hz
+    simp only at hz
+    omega
+
+/-- consequences of the same invariant: in such a history no address of the subaccount range ever is a bettor or a
+    market creator, and every participation held by an address of the subaccount range belongs to an existing subaccount -/
+theorem c11_subaccount_only_deposits_combined (p : Params) (bal : List (Nat × Int)) (h t : Nat) (we de : Bool) (ops : List Op)
+    (h0 : getBal bal ACC_POOL = 0 ∧ getBal bal ACC_BETFEE = 0 ∧ getBal bal ACC_HOUSEFEE = 0)
+    (hb : ∀ x, SUB_BASE ≤ x → getBal bal x = 0) (hwf : ∀ op ∈ ops, op.wfU) (hcl : ops.all Op.clean = true) :
+    let s := run (init p bal h t we de) ops
+    (∀ b ∈ s.core.bets, b.creator < SUB_BASE) ∧ (∀ m ∈ s.core.markets, m.creator < SUB_BASE) ∧
+    (∀ bk ∈ s.core.books, ∀ q ∈ bk.parts, SUB_BASE ≤ q.addr → (aget s.subs q.addr).isSome) := by
+  intro s
+  have hI : cmb2_BXInv s := cmb2_run_bxinv ops _ (cmb2_init_bxinv p bal h t we de h0 hb) hwf hcl
+  refine ⟨hI.keys.1, hI.keys.2, ?_⟩
+  intro bk hbk q hq hge
+  have hs := hI.ht.ret.sett.cmb2_srt
+  exact hI.owned bk.uid bk q.idx q (mem_getBook hs.1 hbk) (Book.mem_getPart (hs.2 bk hbk) hq) hge
 
 end Sge.Combined
